@@ -573,9 +573,8 @@ func ptCompare(e *env, c ptCase, r *ptResult, m ptModel) bool {
 			return bad("the error has no file position", "ErrFilePos", r.ErrText)
 		}
 		if m.Quoted {
-			// position inside the attribute string (the nested tree has its own scanner and an empty name)
-			e.res.Histogram["tie:agree:error-in-quoted-expression"]++
-			return true
+			// the nested scanner's items are positioned in the enclosing file (/repo 228b3d2)
+			e.res.Histogram["tie:error-in-quoted-expression"]++
 		}
 		l, col := lineCol(c.Text, m.ErrPos)
 		if l != r.ErrLine || col != r.ErrCol {
